@@ -131,11 +131,14 @@ def _homogeneous_receivers(fi):
     return sorted(k.name for k in receiver_classes(program(), f) if k.name in HOMOGENEOUS)
 
 
-def check_unchecked_sites(run, rule='R15c'):
+def check_unchecked_sites(run, rule='R15c', only=None):
+    """only: restrict to methods with these names (the group operations, for C02)"""
     prog = run.prog
     n = 0
     for f in prog.analysed_functions():
         if f.module.short.startswith('base/') or f.module.short == 'timing':
+            continue
+        if only is not None and f.name not in only:
             continue
         fi = FuncInfo.of(f)
         for c in own_walk(f.node):
